@@ -559,6 +559,12 @@ def atom_losses(ref, cur, cats, reach=None):
                     continue
                 if c in ("call", "mustq", "mustcall") and reach is not None and gained_calls and any(x in reach(path).get(g, ()) for g in gained_calls):
                     continue      # no longer called directly, but a function this one did not call before reaches it (the step moved behind a helper)
+                if c in ("grd", "arg", "recv", "mustq", "mustcall") and reach is not None and gained_calls and not x.startswith("["):
+                    # the same fact holds for a function this one did not call before and which reaches the callee the fact was about: a thin
+                    # wrapper (resolved through in the reference) got a body of its own, or the step moved behind a helper
+                    nm = x.split(" ")[0]
+                    if any(nm in reach(path).get(g, ()) and (g + x[len(nm):]) in hv for g in gained_calls):
+                        continue
                 if c == "ord":
                     ea, _, eb = x.partition(" < ")
                     hc_ = set(hatoms.get("call", []))
